@@ -191,7 +191,9 @@ pub trait ByteReader {
         Self: Sized,
         D: Deserializable,
     {
-        let mut result = Vec::with_capacity(num_elements);
+        // the number of elements usually comes from the (untrusted) source itself: do not reserve
+        // more than a bounded amount of memory before any element has been read successfully
+        let mut result = Vec::with_capacity(num_elements.min(MAX_PREALLOCATED_ELEMENTS));
         for _ in 0..num_elements {
             let element = D::read_from(self)?;
             result.push(element)
@@ -199,6 +201,9 @@ pub trait ByteReader {
         Ok(result)
     }
 }
+
+/// Maximum number of elements for which [ByteReader::read_many] reserves memory up front.
+const MAX_PREALLOCATED_ELEMENTS: usize = 1024;
 
 // STANDARD LIBRARY ADAPTER
 // ================================================================================================
